@@ -29,7 +29,12 @@ def r13_1(ctx):
     ok = a1 is not None and (ast.unparse(a1) == 'len(%s)' % buf or lens.get(ast.unparse(a1)) == 'len(%s)' % buf)
     ctx.ob('R13.1', 'header-carries-payload-length', ok, sb, packs[0], 'pack(fmt, len(buf))')
     recvs = [(n, c) for (n, c) in q.calls(rb, 'self._recv')]
-    q.need(len(recvs) >= 2, '_recv_bytes does not read header and payload')
+    ctx.ob('R13.1', 'header-and-payload-both-read-exactly', len(recvs) >= 2, rb, recvs[0][1] if recvs else None,
+           'header and payload are both read through self._recv (the read-exactly loop)' if len(recvs) >= 2 else
+           '_recv_bytes reads the header or the payload some other way than through the read-exactly loop: a header the '
+           'OS delivers in two pieces is unpacked short')
+    if len(recvs) < 2:
+        return
     recvs.sort(key=lambda x: x[1].lineno)
     hdr, pay = recvs[0], recvs[-1]
     try:
